@@ -14,7 +14,7 @@ RULE = ("Hypothesis draws a process set (general model grammar of C01) and two o
         "objects, list declarations, given order) and a variant with a generated route per process (Event, Event whose first member "
         "transition carries the rate, Transition with its own rate in event=, legacy transition=/birth_death= lists, incremental add_event / "
         "add_transition / add_birth_death), births re-declared by origin instead of destination and vice versa, space- or comma-separated "
-        "string declarations, and a generated permutation of the processes, with the constructor arguments wrapped as lists, tuples, or (1 case in 4) a lone "
+        "string declarations, and a generated permutation of the processes (in a quarter of the cases one process occurs twice), with the constructor arguments wrapped as lists, tuples, or (1 case in 4) a lone "
         "birth_death= / ode= entry handed over as the bare Transition object the setters accept; in a quarter of the cases the variant is built from Event / legacy Transition objects that already served to build (and evaluate) another model; plus the whole model entered as explicit ode= strings. "
         "Oracle (metamorphic): get_ode_eqn() of the variants differ by an expression that expands to 0 (30-digit numeric fallback), ode, "
         "jacobian and grad agree at 3 generated points (rtol 1e-10), eventRateVector and vMat agree up to the known permutation of events. "
@@ -49,12 +49,34 @@ def strategy(tier):
             tr = {"kind": "D", "o": st_, "d": None, "mag": {"int": 1}} if draw(st.booleans()) else \
                 {"kind": "B", "o": None, "d": st_, "mag": {"int": 1}, "birth_by": draw(st.sampled_from(["origin", "destination"]))}
             m["events"].append({"rate": rate, "rate_kind": kind, "trans": [tr]})
+        if draw(st.integers(0, 3)) == 0:
+            # two separate processes that happen to read the same (two identical infection pathways): both count
+            import copy as _copy
+            legacy_ok = [i for i, ev in enumerate(m["events"]) if "legacy" in render.allowed_routes(ev)]
+            legacy_t = [i for i in legacy_ok if m["events"][i]["trans"][0]["kind"] == "T"]
+            names_ = ir.state_names(m)
+            if not legacy_t and len(names_) >= 2 and draw(st.booleans()):
+                # make sure the class 'two identical unit transfers' exists
+                rate_, kind_ = draw(S.rate_expr(names_, m["params"], [d["name"] for d in m["derived"]]))
+                o_, d_ = draw(st.lists(st.sampled_from(names_), min_size=2, max_size=2, unique=True))
+                m["events"].append({"rate": rate_, "rate_kind": kind_, "trans": [{"kind": "T", "o": o_, "d": d_, "mag": {"int": 1}}]})
+                legacy_t = [len(m["events"]) - 1]
+                legacy_ok = legacy_ok + legacy_t
+            src_i = draw(st.sampled_from(legacy_t)) if legacy_t and draw(st.booleans()) else \
+                draw(st.sampled_from(legacy_ok)) if legacy_ok and draw(st.booleans()) else draw(st.integers(0, len(m["events"]) - 1))
+            m["events"].append(_copy.deepcopy(m["events"][src_i]))
+            m["duplicate_process"] = [src_i, len(m["events"]) - 1]
         routes = []
         for ev in m["events"]:
             allowed = render.allowed_routes(ev)
             if "legacy" in allowed and draw(st.booleans()):
                 allowed = ["legacy", "add_legacy"]          # rare otherwise: make the legacy lists a real class
             routes.append(draw(st.sampled_from(allowed)))
+        dup = m.get("duplicate_process")
+        if dup and "legacy" in render.allowed_routes(m["events"][dup[0]]) and draw(st.booleans()):
+            # both copies through the same route (for example both in the legacy transition= list)
+            r_same = draw(st.sampled_from(["legacy", "legacy", "add_legacy", "trans", "event"]))
+            routes[dup[0]] = routes[dup[1]] = r_same
         perm = list(draw(st.permutations(list(range(len(m["events"]))))))
         if container == "bare":
             bd = _bd(m)
@@ -116,6 +138,8 @@ def oracle(case, rec):
     for r in set(case["routes"]):
         rec.label("route:" + r)
     rec.label("style:" + case["state_style"], "pstyle:" + case["param_style"])
+    if m.get("duplicate_process"):
+        rec.label("process-set:contains-two-identical-processes")
     cont = case.get("container", "list")
     if cont == "bare":
         n_bd = sum(1 for r, ev in zip(case["routes"], m["events"]) if r == "legacy" and ev["trans"][0]["kind"] in "BD")
